@@ -57,6 +57,22 @@ def step (s : Unit) (t : List String) : Unit × String :=
       let m := distinctB (all.map (fun x => showOut (mapOf "target" tg mp x)))
       (s, s!"dst={if d then "ok" else "dup"} map={if m then "ok" else "dup"}")
     | _, _, _ => (s, "bad-op")
+  | [op, l] =>
+    if op = "skip" then (s, "?")
+    else if op = "deps" ∨ op = "depsdistinct" then
+      let outs := (parseList l).mapM (fun (x : String) => match x.splitOn ":" with
+        | [d, _prj, rel] =>
+          match (comps rel).reverse with
+          | [] => none
+          | stem :: rdirs => some (depDst "dependencies" d rdirs.reverse stem, depMap "dependencies" d rdirs.reverse stem)
+        | _ => none)
+      match outs with
+      | some (o :: os) =>
+        let all := o :: os
+        if op = "deps" then (s, showList (all.map (fun x => showOut x.1)))
+        else (s, if distinctB (all.map (fun x => showOut x.1)) && distinctB (all.map (fun x => showOut x.2)) then "ok" else "dup")
+      | _ => (s, "bad-op")
+    else (s, "bad-op")
   | ["sort", ps, cs, ts] =>
     match (parseList ps).mapM parseHex?, (parseList cs).mapM parseSym, (parseList ts).mapM parseSym with
     | some ps, some cs, some ts => (s, showList ((sortFilelist ps cs ts).map toHex))
